@@ -817,7 +817,7 @@ CancelRegion ==
   /\ H("CancelRegion")
   /\ IF Cur.sig = "" \/ InRegion(Cur.sig) = {}
      THEN NoCommit("CancelRegionNone")
-     ELSE /\ Commit(Map(CancelStageM, InOrder(InRegion(Cur.sig))) \o <<CompleteWorkflowM>>, TRUE)
+     ELSE /\ Commit(Map(CancelStageM, InOrder(InRegion(Cur.sig))), TRUE)
           /\ SetWk("hdone") /\ Label("CancelRegion")
           /\ UNCHANGED <<wf, st, tk, dlq, claims, ledger, gh, cnt>>
 
